@@ -45,6 +45,7 @@ const void* g_blocked_on[MAXT];
 // condition variables
 std::atomic<const void*> g_cv_wait[MAXT];   // what a simulated thread waits on (null: not waiting)
 long g_cv_seq[MAXT]; int g_cv_timed[MAXT]; int g_cv_result[MAXT];
+int g_cv_spurious_left = 0; long g_cv_spurious = 0;
 long g_cv_arrivals = 0, g_cv_waits = 0, g_cv_notifies = 0, g_cv_empty_notifies = 0, g_cv_timeouts = 0;
 int g_nthreads = 0;
 bool g_active = false;       // scheduler owns thread interleaving
@@ -238,6 +239,7 @@ void vs_sim_begin(uint64_t seed, int nthreads, int policy, int pct_depth,
   g_freerun.store(0);
   g_nlock_seen = 0; g_lock_blocks = 0; g_lock_ops = 0;
   g_cv_arrivals = g_cv_waits = g_cv_notifies = g_cv_empty_notifies = g_cv_timeouts = 0;
+  g_cv_spurious_left = 0; g_cv_spurious = 0;
   g_active = true;
 }
 
@@ -341,7 +343,10 @@ int vs_run(void) {
       for (int t = 0; t < g_nthreads; ++t) {
         int s = g_state[t].load(std::memory_order_relaxed);
         if (s == S_DONE) ++ndone;
-        else if (s == S_BLOCKED) ++nblocked;
+        else if (s == S_BLOCKED) {
+          // a condition-variable wait may return without a notification while the run's budget of spurious wake-ups lasts
+          if (g_cv_spurious_left > 0 && g_cv_wait[t].load() != nullptr) runnable[nr++] = t; else ++nblocked;
+        }
         else if (s == S_PARKED) { if (g_stall[t] > 0) ++nstalled; else runnable[nr++] = t; }
       }
       if (nr > 0 || nstalled == 0) break;
@@ -402,6 +407,10 @@ int vs_run(void) {
     ++g_step;
     for (int t = 0; t < g_nthreads; ++t) if (g_stall[t] > 0) --g_stall[t];
 
+    if (g_state[pick].load() == S_BLOCKED) {   // spurious wake-up
+      g_cv_result[pick] = 0; g_cv_wait[pick].store(nullptr); g_blocked_on[pick] = nullptr;
+      --g_cv_spurious_left; ++g_cv_spurious;
+    }
     g_state[pick].store(S_RUNNING, std::memory_order_release);
     g_go[pick].store(1, std::memory_order_release);
     futex_wake(&g_go[pick]);
@@ -644,6 +653,9 @@ int __real_pthread_cond_clockwait(pthread_cond_t*, pthread_mutex_t*, clockid_t, 
 int __real_pthread_cond_signal(pthread_cond_t*);
 int __real_pthread_cond_broadcast(pthread_cond_t*);
 void vs_cv_stats(long* w, long* n, long* e, long* to) { if (w) *w = g_cv_waits; if (n) *n = g_cv_notifies; if (e) *e = g_cv_empty_notifies; if (to) *to = g_cv_timeouts; }
+
+void vs_set_cv_spurious(int k) { g_cv_spurious_left = k; }
+long vs_cv_spurious_fired(void) { return g_cv_spurious; }
 
 static int cv_wait_sim(const void* c, pthread_mutex_t* m, int timed) {
   const int t = tl_tid;
